@@ -235,7 +235,7 @@ def check_kernel(idx):
                 # cheap pre-check: an equality whose two sides are the same polynomial in the inputs and auxiliary symbols is discharged by z3's simplifier (sum-of-monomials normal form)
                 try:
                     if z3.is_eq(fml) and z3.is_arith(fml.arg(0)):
-                        dz = z3.simplify(fml.arg(0) - fml.arg(1), som=True)
+                        dz = z3.simplify(fml.arg(0) - fml.arg(1), som=True, sort_sums=True)
                         if z3.is_rational_value(dz) and dz.as_fraction() == 0:
                             res["queries"] += 1
                             res["simplifier_discharged"] = res.get("simplifier_discharged", 0) + 1
